@@ -11,6 +11,7 @@ import typing
 import operator
 import numpy as np
 import puan
+import puan._verif
 import puan.ndarray as pnd
 import puan_rspy as pr
 import more_itertools
@@ -1398,10 +1399,13 @@ class AtLeast(puan.Proposition):
                 out : :class:`puan.Proposition`
         """
         if self.id in new_variable_bounds:
+            _verif_old = self.variable.bounds.as_tuple() if puan._verif.ENABLED else None
             self.variable = puan.variable(
                 id=self.id,
                 bounds=new_variable_bounds.get(self.id),
             )
+            if puan._verif.ENABLED:
+                puan._verif.emit("assume_overwrite", obj=self, id=self.id, old=_verif_old, new=self.variable.bounds.as_tuple())
 
         if self.bounds.constant is not None:
             return self.variable
